@@ -71,6 +71,7 @@ LayoutTags(F) ==
   (IF A!Addressed(T) # abs THEN {"C01:addressed_tiles_differ_from_added_tiles"} ELSE {})
   \cup (IF ~A!DedupExact(T) \/ ~A!DataExact(T, h) THEN {"C10:content_not_stored_exactly_once"} ELSE {})
   \cup (IF ~A!RunsMaximal(T) THEN {"C10:adjacent_entries_mergeable"} ELSE {})
+  \cup (IF ~(A!Addressed(T) \subseteq abs) THEN {"C10:run_or_entry_covers_a_tile_that_was_not_added_with_that_content"} ELSE {})
   \cup (IF h.clustered = 0 THEN {"INFO:not_flagged_clustered"} ELSE {})
 
 \* settings as they are stored: coordinates replaced by the E7 value they round to (ties stay apart)
